@@ -146,7 +146,8 @@ Inductive wl_pc :=
 Inductive pg_pc :=
 | PArmed              (* waiting for the interval to elapse *)
 | PWrite              (* callback goroutine: writePing -> sc.write *)
-| PReset              (* callback goroutine: sc.pingTimer.Reset(sc.pingInterval) pending *)
+| PReset              (* callback goroutine: select { case <-sc.writeStop: return ; default: } pending *)
+| PReset2             (* callback goroutine: writeStop was open; sc.pingTimer.Reset(sc.pingInterval) pending *)
 | PStopped.           (* stopped (or never created: PingInterval < 0) *)
 
 Record state := mk {
@@ -218,7 +219,7 @@ Inductive act :=
 (* -- handler goroutines -- *)
 | HSend | HStop
 (* -- ping timer callback -- *)
-| PWr (c : wchoice) | PRearm
+| PWr (c : wchoice) | PCheckStop | PCheckOpen | PRearm
 (* -- idle timer callbacks -- *)
 | IWr (c : wchoice) | ICloseCloser.
 
@@ -281,7 +282,9 @@ Definition guard (a : act) (s : state) : Prop :=
   | HStop => 0 < h_send s /\ hstop s = true
   (* serverConn.go:sendPingAndSchedule *)
   | PWr c => pg s = PWrite /\ wguard cap c s
-  | PRearm => pg s = PReset
+  | PCheckStop => pg s = PReset /\ wstop s = true
+  | PCheckOpen => pg s = PReset /\ wstop s = false
+  | PRearm => pg s = PReset2
   (* serverConn.go:closeIdleConn *)
   | IWr c => 0 < i_wr s /\ wguard cap c s
   | ICloseCloser => 0 < i_cl s
@@ -377,6 +380,9 @@ Definition eff (a : act) (s : state) : state :=
   (* dispatchHandler: case <-sc.handlerStop *)
   | HStop => s <| h_send := pred (h_send s) |>
   | PWr c => weff c s <| pg := PReset |>
+  (* sendPingAndSchedule: select { case <-sc.writeStop: return ; default: } *)
+  | PCheckStop => s <| pg := PStopped |>
+  | PCheckOpen => s <| pg := PReset2 |>
   (* sendPingAndSchedule: sc.pingTimer.Reset(sc.pingInterval) *)
   | PRearm => s <| pg := PArmed |>
   | IWr c => weff c s <| i_wr := pred (i_wr s) |> <| i_cl := S (i_cl s) |>
@@ -417,7 +423,8 @@ Definition g_wl (a : act) : Prop :=
   | _ => False
   end.
 Definition g_hd (a : act) : Prop := match a with HSend | HStop => True | _ => False end.
-Definition g_pg (a : act) : Prop := match a with PWr _ | PRearm => True | _ => False end.
+Definition g_pg (a : act) : Prop :=
+  match a with PWr _ | PCheckStop | PCheckOpen | PRearm => True | _ => False end.
 Definition g_id (a : act) : Prop := match a with IWr _ | ICloseCloser => True | _ => False end.
 Definition g_tmo (a : act) : Prop := match a with EDrainTimeout => True | _ => False end.
 
@@ -433,7 +440,8 @@ Definition sl_exited (s : state) : Prop :=
 Definition loops_exited (s : state) : Prop := sv s = VEnd /\ sl s = SDone /\ wl s = WDone.
 (* no goroutine of the connection is left except handlers inside user code and armed timers *)
 Definition quiet (s : state) : Prop :=
-  loops_exited s /\ h_send s = 0 /\ pg s <> PWrite /\ pg s <> PReset /\ i_wr s = 0 /\ i_cl s = 0.
+  loops_exited s /\ h_send s = 0 /\ pg s <> PWrite /\ pg s <> PReset /\ pg s <> PReset2 /\
+  i_wr s = 0 /\ i_cl s = 0.
 
 (* the read loop is on its way out of readLoop: inside the sc.write of a GOAWAY it returns after,
    in forward with reader full (only the handlerStop case is left), or past the loop *)
@@ -456,13 +464,23 @@ Definition wl_rank (p : wl_pc) : nat :=
   | WSelect => 5 | WSock false => 6
   end.
 Definition pg_rank (p : pg_pc) : nat :=
-  match p with PArmed => 0 | PStopped => 0 | PReset => 1 | PWrite => 4 end.
+  match p with PArmed => 0 | PStopped => 0 | PReset2 => 1 | PReset => 2 | PWrite => 5 end.
 Definition b2n (b : bool) : nat := if b then 1 else 0.
 Definition rank (s : state) : nat :=
   sv_rank (sv s) + sl_rank (sl s) + wl_rank (wl s) + pg_rank (pg s) +
   13 * b2n (rdy s) + 11 * rd s + 2 * wr s + 2 * hd s + 4 * h_run s + 3 * h_send s +
   5 * b2n (i_armed s) + 4 * i_wr s + i_cl s + 2 * b2n (rt s) + 4 * bud s +
   b2n (negb (tmo s)) + b2n (negb (stalled s)) + b2n (negb (gone s)).
+
+(* once writeStop is closed the ping timer is on its way out: this potential never rises, and every
+   step of the timer (firing included) lowers it *)
+Definition pg_pot (p : pg_pc) : nat :=
+  match p with PReset2 => 5 | PArmed => 4 | PWrite => 3 | PReset => 2 | PStopped => 0 end.
+Definition pg_act (a : act) : bool :=
+  match a with EPingFire | PWr _ | PCheckStop | PCheckOpen | PRearm => true | _ => false end.
+
+Fixpoint count_pg (l : list act) : nat :=
+  match l with [] => 0 | a :: l' => (if pg_act a then 1 else 0) + count_pg l' end.
 
 (* the only actions that can raise the rank *)
 Definition refills (a : act) : bool :=
@@ -541,10 +559,12 @@ Inductive wl_pc :=
 Inductive rl_pc :=
 | RRead              (* readNext: ReadFrameFrom(c.br) *)
 | RIter (u : bool)   (* handling one frame, nothing held; u: its blocking unit is still to come *)
-| RAcq               (* dispatch: r.acquireFor(c, id) on X (also readNext's GOAWAY: deletePending) *)
-| RHold (h : hold) (k : nat)  (* dispatch holding h's Ctx.lck; k: writeOut calls still possible *)
-| ROutL (h : hold) (k : nat)  (* readStream -> updateWindow -> writeOut, holding h's Ctx.lck *)
-| ROut               (* writeOut holding nothing: handleSettings, handlePing, updateWindow(0) *)
+| RAcq               (* dispatchLocked: r.acquireFor(c, id) on X (also readNext's GOAWAY: deletePending) *)
+| RHold (h : hold)   (* dispatchLocked holding h's Ctx.lck (updateWindow only appends to c.outBuf) *)
+| RPost (k : nat) (stop : bool)  (* dispatch, after dispatchLocked has returned and released: up to
+                                    k frames of c.outBuf still to be queued; stop: its result *)
+| RPostW (k : nat) (stop : bool) (* dispatch: c.writeOut(out) for a frame of c.outBuf, nothing held *)
+| ROut               (* readNext: writeOut holding nothing: handleSettings, handlePing *)
 | RExit              (* loop left; deferred c.Close() pending *)
 | RClose (c : close_pc)
 | RDone.
@@ -618,9 +638,9 @@ Inductive act :=
 | LT2Take | LT3InX | LT3InO | LT3Out | LT3End
 (* -- read loop -- *)
 | RGet | RReadFail
-| RGoOut | RGoAcqX | RAcqX | RAcqXFail | RGoHoldO
-| RHoldOut | RHoldFinish (drop stop : bool)
-| ROutLSend | ROutLDone | ROutSend | ROutDone
+| RGoOut | RGoAcqX | RAcqX | RAcqXFail | RGoHoldO | RGoPost (stop : bool)
+| RHoldFinish (drop stop : bool)
+| RPostGo | RPostSend | RPostDone | RPostEnd | ROutSend | ROutDone
 | RIterEnd (stop : bool)
 | RDeferClose
 (* -- Conn.Close, run by the write loop / the read loop / a user goroutine -- *)
@@ -722,11 +742,12 @@ Definition guard (a : act) (s : state) : Prop :=
   | RGoAcqX => rl s = RIter true /\ xloc s = XTab
   | RAcqX => rl s = RAcq /\ lx s = LxNone /\ xdone s = false
   | RAcqXFail => rl s = RAcq /\ lx s = LxNone /\ xdone s = true
-  | RGoHoldO => rl s = RIter true
-  | RHoldOut => exists h k, rl s = RHold h (S k)
-  | RHoldFinish _ _ => exists h k, rl s = RHold h k
-  | ROutLSend => (exists h k, rl s = ROutL h k) /\ outq s < cap
-  | ROutLDone => (exists h k, rl s = ROutL h k) /\ done s = true
+  | RGoHoldO | RGoPost _ => rl s = RIter true
+  | RHoldFinish _ _ => exists h, rl s = RHold h
+  | RPostGo => exists k st, rl s = RPost (S k) st
+  | RPostSend => (exists k st, rl s = RPostW k st) /\ outq s < cap
+  | RPostDone => (exists k st, rl s = RPostW k st) /\ done s = true
+  | RPostEnd => exists k st, rl s = RPost k st
   | ROutSend => rl s = ROut /\ outq s < cap
   | ROutDone => rl s = ROut /\ done s = true
   | RIterEnd _ => exists u, rl s = RIter u
@@ -742,9 +763,11 @@ Definition guard (a : act) (s : state) : Prop :=
 Definition wl_hold (s : state) : hold :=
   match wl s with LLockB h | LWrite h => h | _ => HNone end.
 Definition rl_hold (s : state) : hold :=
-  match rl s with RHold h _ | ROutL h _ => h | _ => HNone end.
+  match rl s with RHold h => h | _ => HNone end.
 Definition rl_k (s : state) : nat :=
-  match rl s with RHold _ k | ROutL _ k => k | _ => 0 end.
+  match rl s with RPost k _ | RPostW k _ => k | _ => 0 end.
+Definition rl_stop (s : state) : bool :=
+  match rl s with RPost _ st | RPostW _ st => st | _ => false end.
 
 Definition eff (a : act) (s : state) : state :=
   match a with
@@ -866,31 +889,36 @@ Definition eff (a : act) (s : state) : state :=
   | RGet => s <| rdy := false |> <| rl := RIter true |>
   (* ... or an error: c.setLastErr(err); break *)
   | RReadFail => s <| rl := RExit |>
-  (* handleSettings / handlePing / updateWindow(0) with nobody waiting -> writeOut *)
+  (* readNext: handleSettings / handlePing -> writeOut *)
   | RGoOut => s <| rl := ROut |>
   (* dispatch: r, ok := c.loadReq(id) found X (reqLck); r.acquireFor(c, id): ctx.lck.Lock().
      Also readNext's GOAWAY: takeReqsAbove, deletePending -> acquireFor, markFinished, resolve *)
   | RGoAcqX => s <| rl := RAcq |>
-  (* acquireFor succeeded; readStream may call updateWindow twice (stream, connection) *)
-  | RAcqX => s <| lx := LxRl |> <| rl := RHold HX 2 |>
+  (* acquireFor succeeded *)
+  | RAcqX => s <| lx := LxRl |> <| rl := RHold HX |>
   (* acquireFor found ctx.done: c.dequeueReq(id) *)
   | RAcqXFail => s <| xloc := (match xloc s with XTab => XGone | l => l end) |> <| rl := RIter false |>
   (* dispatch for another request: its Ctx.lck is taken *)
-  | RGoHoldO => s <| rl := RHold HO 2 |>
-  (* readStream: case FrameData: c.updateWindow(...) -> writeOut, the Ctx.lck held *)
-  | RHoldOut => s <| rl := ROutL (rl_hold s) (pred (rl_k s)) |>
-  (* dispatch returns (deferred r.release()).  drop: c.finish(r, id, err) ran -- takeReq,
-     dropPending, markFinished, resolve; stop: dispatch reported true *)
+  | RGoHoldO => s <| rl := RHold HO |>
+  (* dispatch with nobody waiting on the stream: dispatchLocked holds nothing; readStream may
+     still have appended updateWindow(0, ...) to c.outBuf *)
+  | RGoPost stop => s <| rl := RPost 2 stop |>
+  (* dispatchLocked returns (deferred r.release()).  drop: c.finish(r, id, err) ran -- takeReq,
+     dropPending, markFinished, resolve; stop: its result.  readStream has appended at most two
+     frames to c.outBuf (updateWindow for the stream and for the connection) *)
   | RHoldFinish drop stop =>
       release (rl_hold s)
         (match rl_hold s, drop with
          | HX, true => resolveX s <| xloc := (match xloc s with XTab => XGone | l => l end) |>
                          <| xpend := false |>
          | _, _ => s
-         end) <| rl := (if stop then RExit else RRead) |>
-  (* writeOut: case c.out <- fr / case <-c.done, the Ctx.lck still held *)
-  | ROutLSend => s <| outq := S (outq s) |> <| rl := RHold (rl_hold s) (rl_k s) |>
-  | ROutLDone => s <| rl := RHold (rl_hold s) (rl_k s) |>
+         end) <| rl := RPost 2 stop |>
+  (* dispatch: for i, out := range c.outBuf { c.writeOut(out) } -- case c.out <- fr / <-c.done *)
+  | RPostGo => s <| rl := RPostW (pred (rl_k s)) (rl_stop s) |>
+  | RPostSend => s <| outq := S (outq s) |> <| rl := RPost (rl_k s) (rl_stop s) |>
+  | RPostDone => s <| rl := RPost (rl_k s) (rl_stop s) |>
+  (* dispatch returns stop to readLoop *)
+  | RPostEnd => s <| rl := (if rl_stop s then RExit else RRead) |>
   (* writeOut with nothing held *)
   | ROutSend => s <| outq := S (outq s) |> <| rl := RIter false |>
   | ROutDone => s <| rl := RIter false |>
@@ -944,8 +972,9 @@ Definition g_wl (a : act) : Prop :=
   end.
 Definition g_rl (a : act) : Prop :=
   match a with
-  | RGet | RReadFail | RGoOut | RGoAcqX | RAcqX | RAcqXFail | RGoHoldO | RHoldOut
-  | RHoldFinish _ _ | ROutLSend | ROutLDone | ROutSend | ROutDone | RIterEnd _ | RDeferClose => True
+  | RGet | RReadFail | RGoOut | RGoAcqX | RAcqX | RAcqXFail | RGoHoldO | RGoPost _
+  | RHoldFinish _ _ | RPostGo | RPostSend | RPostDone | RPostEnd | ROutSend | ROutDone | RIterEnd _
+  | RDeferClose => True
   | a => g_close 1 a
   end.
 Definition g_uc (a : act) : Prop := g_close 2 a.
@@ -980,6 +1009,15 @@ Definition holds (s : state) (p : nat) (m : nat) : Prop :=
   | 0 => (m = 1 /\ wl_hold s = HO) \/ (m = 2 /\ lx s = LxWl) \/ (m = 3 /\ bw s = BwWl)
   | 1 => (m = 1 /\ rl_hold s = HO) \/ (m = 2 /\ lx s = LxRl) \/ (m = 3 /\ bw s = BwRl)
   | 2 => m = 3 /\ bw s = BwUc
+  | _ => False
+  end.
+
+(* parked on a send into c.out (writeOut): 0 the write loop itself (cancelStream in sendPending),
+   1 the read loop (readNext's replies; dispatch's c.outBuf after dispatchLocked has returned) *)
+Definition parked_on_out (s : state) (p : nat) : Prop :=
+  match p with
+  | 0 => wl s = LSelfOut
+  | 1 => rl s = ROut \/ exists k st, rl s = RPostW k st
   | _ => False
   end.
 End Sem.
